@@ -5,10 +5,11 @@ from .cfg import place_fields
 
 
 class Deps:
-    __slots__ = ('fields', 'calls', 'args', 'locals', 'consts')
+    __slots__ = ('fields', 'calls', 'args', 'locals', 'consts', 'closures')
 
     def __init__(self):
         self.fields, self.calls, self.args, self.locals, self.consts = set(), set(), set(), set(), set()
+        self.closures = set()      # ids of closures whose value flows in (their bodies run inside the adaptors they are passed to)
 
 
 def deps(fn, o, limit=800):
@@ -43,6 +44,8 @@ def deps(fn, o, limit=800):
                 elif rv[0] == 'ref':
                     push(['c', rv[2]])
                 elif rv[0] == 'agg':
+                    if isinstance(rv[1], str) and rv[1].startswith('closure:'):
+                        d.closures.add(rv[1][len('closure:'):])
                     for x in rv[2]:
                         push(x)
                 elif rv[0] == 'discr':
